@@ -105,3 +105,9 @@ theorem fromLESigned4 (v : Int) (h : -2147483648 ≤ v ∧ v ≤ 2147483647) :
   split <;> omega
 
 end DpapiNg.Py
+
+namespace DpapiNg
+/-- simp set that resolves `take`/`drop`/`sliceN` of right-nested concatenations with known lengths -/
+macro "slices0" "[" ts:Lean.Parser.Tactic.simpLemma,* "]" : tactic =>
+  `(tactic| simp [Py.sliceN, List.take_append, List.drop_append, List.take_of_length_le, List.drop_eq_nil_of_le, $ts,*])
+end DpapiNg
